@@ -248,7 +248,7 @@ theorem rank_step (a : Step) (hI : Inv cfg s) (hs : step cfg s a = some s') :
     · exact Nat.le_of_eq (stageL_congr_held
         (mem_erase_map_of_ne (l := (s.execs i).held) (a := (w, t)) (f := fun y => y.2.id) (x := id) hid))
   | deliver i =>
-    obtain ⟨_, r, q, hq, ⟨hl, _⟩ | ⟨c, err, hl, _, hs'⟩ | ⟨c, vi, vp, hl, _, hs'⟩⟩ := step_deliver hs
+    obtain ⟨_, r, q, hq, ⟨hl, _⟩ | ⟨c, err, hl, _, hs'⟩ | ⟨c, hl, _, hs'⟩⟩ := step_deliver hs
     · exfalso
       have : r.id ∈ inflight (s.execs i) := by simp [inflight, hq]
       exact lookup_none hl (((hI.e i).fl_keys _).1 this)
@@ -264,7 +264,7 @@ theorem rank_step (a : Step) (hI : Inv cfg s) (hs : step cfg s a = some s') :
       intro x id _ _; exact Nat.le_of_eq (stage_congr htq hheld id)
     · obtain ⟨e', hexec, htq, hheld⟩ : ∃ e', s'.execs = upd s.execs i e' ∧ e'.taskQ = (s.execs i).taskQ
           ∧ e'.held = (s.execs i).held := by rw [hs']; exact ⟨_, rfl, rfl, rfl⟩
-      have hphase : s'.phase = upd s.phase c (.responding (.value vi vp)) := by rw [hs']
+      have hphase : s'.phase = upd s.phase c (.responding r.out) := by rw [hs']
       have hph := hI.c.pend_phase i _ c (lookup_mem hl)
       have hc' : rank s' c < rank s c := by
         have := stage_pos (s.execs i) r.id
